@@ -22,6 +22,8 @@ package main
 
 import (
 	"fmt"
+	"io"
+	"log"
 	"math/rand"
 	"strconv"
 	"strings"
@@ -209,6 +211,8 @@ func genOptOp(r *rand.Rand, isCond bool, kind int) string {
 			return strings.TrimSpace(verb + " " + strings.Join(as, " "))
 		case k < 86:
 			return strings.TrimSpace("aux " + []string{"", "N", "1", "2", "3"}[r.Intn(5)])
+		case k < 89:
+			return "logger " + []string{"d", "o", "0"}[r.Intn(3)]
 		default:
 			verb := "lvl+"
 			if r.Intn(3) == 0 {
@@ -265,6 +269,9 @@ func genOptCfg(r *rand.Rand, isCond bool) Cfg {
 	}
 	if r.Intn(4) == 0 {
 		c.Cat = pick(r, idPool)
+	}
+	if r.Intn(5) == 0 && !isCond {
+		c.Mtx = true // the toggle form must not take the lock twice
 	}
 	if r.Intn(6) == 0 {
 		c.Err = 7 // a recorded error must not stand in the way of any option or getter
@@ -481,6 +488,8 @@ func applyOptStack(s stackage.Stack, t []string) {
 		s.SetLogLevel(lvlArgs(t[1:])...)
 	case "lvl-":
 		s.UnsetLogLevel(lvlArgs(t[1:])...)
+	case "logger":
+		s.SetLogger(loggerArg(t[1]))
 	default:
 		panic("bad op " + t[0])
 	}
@@ -528,9 +537,23 @@ func applyOptCond(c stackage.Condition, t []string) {
 		c.SetLogLevel(lvlArgs(t[1:])...)
 	case "lvl-":
 		c.UnsetLogLevel(lvlArgs(t[1:])...)
+	case "logger":
+		c.SetLogger(loggerArg(t[1]))
 	default:
 		panic("a Condition has no " + t[0])
 	}
+}
+
+// loggerArg: a logger that writes nowhere (`d`: a *log.Logger on io.Discard; `o`: the string "off"; `0`: the int 0).
+// Assigning a logger changes the logger only: every other setting, the log levels included, stays.
+func loggerArg(k string) any {
+	switch k {
+	case "d":
+		return log.New(io.Discard, "", 0)
+	case "o":
+		return "off"
+	}
+	return 0
 }
 
 func runOpts(payload string) string {
